@@ -1,16 +1,15 @@
 SPECIFICATION Spec
 CONSTANTS
-  NTypes = 3
-  MaxRuns = 3
-  Shapes <- ShapesDeps
-  Limits = {0}
+  NTypes = 4
+  MaxRuns = 4
+  Shapes <- ShapesMixed
+  Limits = {0, 1, 2, 3}
   DefIds = {1, 2, 3}
-  OmitVals = {FALSE}
+  OmitVals = {FALSE, TRUE}
   Modes = {"fresh", "lctx", "gen"}
   ResetLimiter = TRUE
-  IdentityDepKey = FALSE
+  IdentityDepKey = TRUE
   VolatileUniq = TRUE
   FreshModule = TRUE
-VIEW View
-INVARIANT EmitBad
+INVARIANT Emit
 CHECK_DEADLOCK FALSE
